@@ -2,11 +2,12 @@ module verifharness
 
 go 1.19
 
-require filippo.io/age v0.0.0
-
 require (
-	golang.org/x/crypto v0.24.0 // indirect
-	golang.org/x/sys v0.21.0 // indirect
+	filippo.io/age v0.0.0
+	filippo.io/edwards25519 v1.1.0
+	golang.org/x/crypto v0.24.0
 )
+
+require golang.org/x/sys v0.21.0 // indirect
 
 replace filippo.io/age => /repo
